@@ -248,6 +248,11 @@ structure CheckFacts where
   lenConstString : Bool
   /-- type.go nodeType2, basicLit: an Int constant whose literal starts with `'` is typed untyped rune (ebd86cd) -/
   runeLitKeepsType : Bool
+  /-- typecheck.go convertConst, `case reflect.Float32:` stands alone and takes `constant.Float32Val(constant.ToFloat(c))`:
+      the float32 nearest to the exact constant (round to nearest even, one rounding). `false`: the case shares the
+      float64 arm (`Float64Val`, then `Convert(t)`): two roundings, wrong for constants within half a float64 ulp of a
+      float32 rounding midpoint (seed C03-3) -/
+  f32Direct : Bool
   deriving DecidableEq, Repr
 
 structure EvalFacts where
